@@ -307,16 +307,37 @@ fn check_case(idx: u64, c: &Case, st: &mut Stats) {
         wanted_back += 1;
         match r {
             Ok(a) if a == addr => parsed_back += 1,
-            Ok(a) => st.viols.add_eager(idx, 
-                format!("roundtrip-{op}:{kind}"),
-                format!("type {} network {}: {op} of {text} gives a different address {a:?} (original {addr:?})", c.ty, c.net),
-                c.to_json(),
-            ),
-            Err(e) => st.viols.add_eager(idx, 
-                format!("roundtrip-{op}:{kind}"),
-                format!("type {} network {}: {op} of {text} is rejected: {e}", c.ty, c.net),
-                c.to_json(),
-            ),
+            Ok(a) => {
+                // name the component that changed, so that one defect is one fingerprint
+                // whatever decoder / address kind exposes it
+                let differs = catch(|| {
+                    if a.network() != addr.network() {
+                        "network"
+                    } else if a.typeid() != addr.typeid() {
+                        "type"
+                    } else if kind == "shelley-pointer" {
+                        "pointer-or-hash"
+                    } else {
+                        "hash"
+                    }
+                })
+                .unwrap_or("unknown");
+                st.viols.add_eager(
+                    idx,
+                    format!("roundtrip:{differs}-differs"),
+                    format!("type {} network {}: {op} of {text} gives a different address {a:?} (original {addr:?})", c.ty, c.net),
+                    c.to_json(),
+                )
+            }
+            Err(e) => {
+                let route = if op.starts_with("from_bytes") || op.starts_with("from_hex") { "bytes" } else { "string" };
+                st.viols.add_eager(
+                    idx,
+                    format!("roundtrip:own-encoding-rejected:{kind}:{route}"),
+                    format!("type {} network {}: {op} of {text} is rejected: {e}", c.ty, c.net),
+                    c.to_json(),
+                )
+            }
         }
     };
     let r = guard!("Address::from_bytes", Address::from_bytes(&bytes).map_err(|e| e.to_string()));
